@@ -716,6 +716,52 @@ example :
   have : meanSpecParts .ignore f fp [0, 0] = (13, 3) := by decide
   rw [this]; norm_num
 
+/-- **C07-R4f (error bounds for any precision: binary32 images, and `mean_filter` with cancellation).** For every
+rounding `rnd` with relative error at most `u` (`0 < u < 1`; binary64: `u = 2^-53`, binary32: `u = 2^-24` — the arithmetic of
+`template_match<float>`), any rational data, every mode and pixel:
+(1) `template_match`: `(1−u)^(N+3) · S ≤ computed ≤ (1+u)^(N+3) · S`, `S` the exact kernel, `N` the template size;
+(2) `mean_filter` (samples of both signs, so cancellation is possible): with `n ≥ 1` gathered samples whose count converts
+exactly, `|computed − exact mean| ≤ ((1+u)^(n+1) − 1) · (Σ|x|) / n` — the error of recursive summation relative to the sum
+of the magnitudes, one more rounding for the division. These are the margins the harness uses for float images
+(`2(N+3)u·S` and `2(n+1)u·Σ|x|/n`). -/
+theorem C07_float_error_bounds_any_precision (rnd : ℚ → ℚ) (u : ℚ) (hu0 : 0 < u) (hu1 : u < 1)
+    (hrel : ∀ x : ℚ, |rnd x - x| ≤ |x| * u) (m : Mode) (f : Img ℚ) (p : List Int) :
+    (∀ (tshape : List Nat) (t : Array ℚ),
+      (1 - u) ^ (shapeSize tshape + 3) * tmAtG exactTmOps m f tshape t p ≤ tmAtG (ratTmOps rnd) m f tshape t p ∧
+      tmAtG (ratTmOps rnd) m f tshape t p ≤ (1 + u) ^ (shapeSize tshape + 3) * tmAtG exactTmOps m f tshape t p) ∧
+    (∀ (fp : List (List Int)), 0 < (gatherG (0 : ℚ) m f fp p).length →
+      rnd ((gatherG (0 : ℚ) m f fp p).length : ℚ) = ((gatherG (0 : ℚ) m f fp p).length : ℚ) →
+      |meanAtG (ratMeanOps rnd) m f fp p - meanAtG exactMeanOps m f fp p| ≤
+        ((1 + u) ^ ((gatherG (0 : ℚ) m f fp p).length + 1) - 1) * absSumQ (gatherG (0 : ℚ) m f fp p) /
+          ((gatherG (0 : ℚ) m f fp p).length : ℚ)) :=
+  ⟨fun tshape t => (tmAtG_rat_bound_u rnd u hu0 hu1 hrel m f tshape t p).2,
+   fun fp hn0 hn => meanAtG_rat_bound_u rnd u hu0 hrel m f fp p hn0 hn⟩
+
+/-- non-vacuity: binary64 rounding satisfies the hypothesis with `u = 2^-24` as well (a coarser bound), and converts
+    the count 2 exactly; the two horizontal neighbours of a 1×3 row with values 1/3, −1/3 + 1/7 in `nearest` mode -/
+example :
+    let f : Img ℚ := { shape := [1, 3], data := #[1 / 3, 0, -1 / 3 + 1 / 7] }
+    let fp : List (List Int) := [[0, -1], [0, 1]]
+    gatherG (0 : ℚ) .nearest f fp [0, 1] = [1 / 3, -1 / 3 + 1 / 7] ∧
+    |meanAtG (ratMeanOps Mahotas.C05.rne53) .nearest f fp [0, 1] - meanAtG exactMeanOps .nearest f fp [0, 1]| ≤
+      ((1 + 1 / 2 ^ 24) ^ 3 - 1) * absSumQ [1 / 3, -1 / 3 + 1 / 7] / 2 := by
+  intro f fp
+  have hg : gatherG (0 : ℚ) .nearest f fp [0, 1] = [1 / 3, -1 / 3 + 1 / 7] := by
+    simp [gatherG, f, fp, fixPos, fixOffset, addPos, Img.getD, inside, ravelI, shapeSize]
+  refine ⟨hg, ?_⟩
+  have hrel : ∀ x : ℚ, |Mahotas.C05.rne53 x - x| ≤ |x| * (1 / 2 ^ 24) := by
+    intro x
+    have h := Mahotas.C05.rne53_rounding.rel x
+    have : |x| / 2 ^ 53 ≤ |x| * (1 / 2 ^ 24) := by
+      rw [mul_one_div]
+      exact div_le_div_of_nonneg_left (abs_nonneg x) (by norm_num) (by norm_num)
+    linarith
+  have h := (C07_float_error_bounds_any_precision Mahotas.C05.rne53 (1 / 2 ^ 24) (by norm_num) (by norm_num) hrel
+    .nearest f [0, 1]).2 fp
+  rw [hg] at h
+  have h2 := Mahotas.C05.rne53_rounding.exact_int 2 (by norm_num)
+  exact h (by decide) (by simpa using h2)
+
 /-- **C07-R4d (`majority_filter`, closed form of the loops).** For a 2-D image `rows × cols` and window size `N` (the
 wrapper replaces an even `N` by `N + 1`, `majorityN`), `py_majority_filter` — output cleared, nothing done when
 `rows < N` or `cols < N`, otherwise `for (y = 0; y != rows−N; ++y) for (x = 0; x != cols−N; ++x)` — sets pixel `(Y, X)`
